@@ -7,12 +7,14 @@ Results corpus (every document is run through the extractor the router selects f
   (rich)  per reference writer of verif.gen (24 formats, verif.props.c04_corpus) one document using every body feature the
           writer can express (paragraph, non-BMP/RTL/markup text, heading, table, picture, list, link, typed cells,
           attachments, second unit, notes, header/footer) and every storable document property set to a value holding all
-          value features (inner space, double space, & < > " ' the literal text "&amp;", { } backslash, the euro sign (0x80 in code page 1252),
-          non-BMP, RTL);
+          value features (inner space, double space, & < > " ' the literal text "&amp;", { } backslash, the euro sign
+          (0x80 in code page 1252), non-BMP, RTL); plus one variant of it per damaging feature the writer can express:
+          lone surrogate (rtf, ppt, xls), dangling / external picture references (ooxml, odf, epub), \\'xx escapes (rtf);
   (body)  per format the empty document and every single body feature on its own;
   (meta)  per format: each storable property alone (plain value), and all storable properties together with no / each single
           value feature (16 documents; RTF: also with the \\'xx writer variant);
-  (mut)   single-deviation byte mutations of the small document [paragraph, table, picture, title] of every format:
+  (mut)   single-deviation byte mutations of the small document [paragraph, non-BMP/RTL paragraph, table, picture, title]
+          of every format (archives: three members txt / html / md):
           truncation at i*len/16, byte XOR 0xFF / 0x01 / 0x20 at i*len/64, and for ZIP packages byte XOR 0x01 / 0x20
           at i*len/64 inside each of three parts (main part, properties part, a relationship/manifest part; package
           re-zipped); quick: every 2nd truncation, every 4th offset, no XOR 0x20, main part only. thorough also mutates
@@ -621,8 +623,8 @@ def documents(tier):
     all_feats = list(K.VALUE_FEATURES)
     for fmt in K.FORMATS:
         keys = K.META_CAPS.get(fmt, ())
-        rich = [f for f in K.BODY_ALL if f not in K.RICH_EXTRA]
         feats = features_of(fmt)
+        rich = [f for f in feats if f not in K.RICH_EXTRA]
         out.append((fmt, {"body": rich, "meta": {k: list(all_feats) for k in keys}, "mut": None}, "rich", True))
         for x in K.RICH_EXTRA:
             if x in feats:
